@@ -8,7 +8,7 @@ MIN = 60 * NS
 HOUR = 3600 * NS
 DAY = 86400 * NS
 Y2000 = 946684800 * NS
-Y2037 = 2145916800 * NS
+Y2037 = 2082758400 * NS          # reference instants stay before 2036 (tables reach 2041)
 SKS = ['skip', 'earlier', 'later', 'after']
 RPS = ['skip', 'earlier', 'later', 'twice']
 
@@ -56,15 +56,15 @@ class Ctx:
             return base + r.choice([0, -1, 1, -HOUR, HOUR]) - self.tz['init'] * NS
         return r.randrange(Y2000 // NS, Y2037 // NS) * NS + r.choice([0, 0, 1, 999_999_999, 500_000_000])
 
-    def filt(self, depth: int, sat: bool = True):
+    def filt(self, depth: int, sat: bool = True, dateonly: bool = False):
         r = self.r
         p = r.random()
         if depth > 0 and p < 0.35:
-            k = r.choice(['any', 'all', 'not'])
+            k = r.choice(['any', 'any', 'all', 'not'])
             if k == 'not':
-                return ['not', self.filt(depth - 1, sat)]
-            return [k, [self.filt(depth - 1, sat) for _ in range(r.choice([0, 1, 2, 2, 3]) if not sat else r.choice([1, 2, 2, 3]))]]
-        k = r.choice(['time', 'weekday', 'day', 'month', 'weekday', 'time'])
+                return ['not', self.filt(depth - 1, sat, dateonly)]
+            return [k, [self.filt(depth - 1, sat, dateonly) for _ in range(r.choice([1, 2, 2, 3]))]]
+        k = r.choice(['time', 'weekday', 'day', 'month', 'weekday', 'time'] if not dateonly else ['weekday', 'day', 'month', 'weekday'])
         if k == 'time':
             a, b = sorted([self.tod(), self.tod()])
             m = r.random()
@@ -78,7 +78,7 @@ class Ctx:
         if k == 'weekday':
             return ['weekday', sorted(r.sample(range(1, 8), r.choice([1, 2, 3, 5, 6])))]
         if k == 'day':
-            return ['day', sorted(r.sample(range(1, 32), r.choice([1, 3, 10, 20, 28])))]
+            return ['day', sorted(r.sample(range(1, 29), r.choice([1, 3, 10, 20, 28])))]
         return ['month', sorted(r.sample(range(1, 13), r.choice([1, 2, 6, 11])))]
 
     def unsat_filter(self):
@@ -87,8 +87,8 @@ class Ctx:
                          ['not', ['all', []]], ['time', 12 * HOUR, 12 * HOUR],
                          ['all', [['month', [2]], ['day', [30, 31]]]]])
 
-    def optfilt(self, p_some: float = 0.4, depth: int = 2):
-        return self.filt(depth) if self.r.random() < p_some else None
+    def optfilt(self, p_some: float = 0.4, depth: int = 2, dateonly: bool = True):
+        return self.filt(depth, True, dateonly) if self.r.random() < p_some else None
 
     # ---------------------------------------------------------------------------------------------
     def time_expr(self, fprob=0.4):
@@ -108,6 +108,8 @@ class Ctx:
         if r.random() < fprob:
             # filters on fine grids must be satisfiable within a modest number of steps
             f = self.filt(1)
+            if iv < 15 * MIN:
+                iv = r.choice([15 * MIN, HOUR, 90 * MIN, 37 * MIN + 11 * NS])
         return ['interval', start, iv, f]
 
     def base_expr(self, fprob=0.35, ref=None):
@@ -122,7 +124,7 @@ class Ctx:
     def op_expr(self, inner, fprob=0.25):
         r = self.r
         k = r.choice(['offset', 'earliest', 'latest', 'jitter', 'offset', 'jitter'])
-        f = self.optfilt(fprob, 1)
+        f = self.optfilt(fprob if k != 'jitter' else fprob / 3, 1)
         if k == 'offset':
             off = r.choice([NS, -NS, 90 * MIN, -90 * MIN, 30 * NS, -30 * NS, 5 * HOUR, -5 * HOUR, 25 * HOUR, -25 * HOUR, 0,
                             500_000_000, -1_500_000_000])
@@ -137,7 +139,64 @@ class Ctx:
         e = self.base_expr(ref=ref)
         for _ in range(self.r.randrange(0, depth + 1)):
             e = self.op_expr(e)
+        return sanitize(e, self.r)
+
+
+def _heavy(e) -> bool:
+    k = e[0]
+    if k in ('earliest', 'latest'):
+        return True
+    if k in ('offset', 'jitter'):
+        if e[-1] is not None:
+            return True
+        if k == 'offset' and abs(e[2]) > 60 * NS:
+            return True
+        if k == 'jitter' and max(abs(e[2]), abs(e[3])) > 60 * NS:
+            return True
+        return _heavy(e[1])
+    if k == 'group':
+        return e[2] is not None or any(_heavy(m) for m in e[1])
+    return False
+
+
+def _coarsen(e, r, filtered_above: bool):
+    k = e[0]
+    if k == 'interval':
+        e = list(e)
+        if e[2] < 15 * MIN:
+            e[2] = r.choice([15 * MIN, HOUR, 90 * MIN + NS])
         return e
+    if k == 'group':
+        return ['group', [_coarsen(m, r, True) for m in e[1]], e[2]]
+    if k in ('offset', 'earliest', 'latest', 'jitter'):
+        e = list(e)
+        e[1] = _coarsen(e[1], r, True)
+        return e
+    return e
+
+
+def sanitize(e, r):
+    """keep single queries cheap: second-grained intervals only where no operation can force thousands of
+    re-queries (large shifts, bounds, filters above them); filtered intervals drift over all times of day"""
+    if _heavy(e):
+        e = _coarsen(e, r, True)
+    return _drift(e, r)
+
+
+def _drift(e, r):
+    k = e[0]
+    if k == 'interval':
+        e = list(e)
+        if e[3] is not None and e[2] % (15 * MIN) == 0:
+            e[2] = r.choice([37 * MIN + 11 * NS, 90 * MIN + NS])
+        return e
+    if k == 'group':
+        return ['group', [_drift(m, r) for m in e[1]], e[2]]
+    if k in ('offset', 'earliest', 'latest', 'jitter'):
+        e = list(e)
+        e[1] = _drift(e[1], r)
+        return e
+    return e
 
 
 def fracs(rng: random.Random) -> list:
